@@ -1,6 +1,7 @@
 import PdshVerif.Base.Hex
 import PdshVerif.Exec.Format
 import PdshVerif.Exec.EndToEnd
+import PdshVerif.Exec.Ssh
 import PdshVerif.Exec.Spec
 import PdshVerif.Opt.Rcmd
 import PdshVerif.Opt.RcmdSpec
@@ -161,6 +162,15 @@ def stepModel (v : Variant) (re : Bool) (line : String) : String :=
       | some call => "ok " ++ hx call.path ++ " " ++ " ".intercalate (call.argv.map hx)
       | none => "ub"
     | _, _, _, _, _, _ => "bad-op"
+  | "ssh" :: h :: lu :: ru :: r :: pcp :: ap :: ar :: dp :: c :: rest =>
+    -- ssh HOST LUSER RUSER RANK PCP(0|1) APPEND|~ ARGS|~ DSHPATH|~ CMD WORD*  -> ok A0 A1 ... | ub
+    match Hex.decodeToChars h, Hex.decodeToChars lu, Hex.decodeToChars ru, r.toNat?, parseOpt ap, parseOpt ar,
+          parseOpt dp, Hex.decodeToChars c, decodeAll rest with
+    | some h, some lu, some ru, some r, some ap, some ar, some dp, some c, some ws =>
+      match Ssh.sshCall v ⟨h, ru, r⟩ ap ar dp lu (pcp = "1") ws c [] with
+      | some a => "ok " ++ " ".intercalate (a.map hx)
+      | none => "ub"
+    | _, _, _, _, _, _, _, _, _ => "bad-op"
   | "reg" :: rest => regModel re rest
   | _ => "bad-op"
 
